@@ -20,27 +20,29 @@ import (
 
 // Config is the swarm configuration of one run.
 type Config struct {
-	Profile     string   `json:"profile"` // property whose workload mix is used
-	IchCap      int      `json:"ich_cap"`
-	OchCap      int      `json:"och_cap"`
-	AutoDrain   bool     `json:"auto_drain"` // operator reads everything at once; else explicit recv
-	Strict      bool     `json:"strict"`     // avoid steps that go through a runtime select coin
-	IDs         []string `json:"ids"`
-	WriterKinds []string `json:"writer_kinds"`
-	ParkWrites  int      `json:"park_writes"` // percent of input attempts whose writer parks in Write/Flush
-	ReadErrs    []string `json:"read_errs"`
-	DeriveCtx   bool     `json:"derive_ctx"` // attempt contexts derive from the broker's
-	Listeners   int      `json:"listeners"`
-	MaxSteps    int      `json:"max_steps"`
-	MaxAttempts int      `json:"max_attempts"`
-	ReadMax     int      `json:"read_max"`
-	W           Weights  `json:"w"`
-	Enum        string   `json:"enum,omitempty"`          // description of an enumerated case (C06)
-	IOSameHost  bool     `json:"io_same_host,omitempty"`  // all /io attempts come from one remote address
-	LogPark     bool     `json:"log_park,omitempty"`      // hold callers inside their log calls when the broker's lock turns out to be free there
-	HeldShut    bool     `json:"held_shutdown,omitempty"` // the shutdown may be let go while a lock section is blocked on the stalled terminal
-	LateClose   bool     `json:"late_close,omitempty"`    // the transports of a returned caller are closed later, at a step of their own (close_trans), not at once
-	Burst       bool     `json:"burst,omitempty"`         // several /io requests may start within one step (their set-up code runs concurrently)
+	Profile      string   `json:"profile"` // property whose workload mix is used
+	IchCap       int      `json:"ich_cap"`
+	OchCap       int      `json:"och_cap"`
+	AutoDrain    bool     `json:"auto_drain"` // operator reads everything at once; else explicit recv
+	Strict       bool     `json:"strict"`     // avoid steps that go through a runtime select coin
+	IDs          []string `json:"ids"`
+	WriterKinds  []string `json:"writer_kinds"`
+	ParkWrites   int      `json:"park_writes"` // percent of input attempts whose writer parks in Write/Flush
+	ReadErrs     []string `json:"read_errs"`
+	DeriveCtx    bool     `json:"derive_ctx"` // attempt contexts derive from the broker's
+	Listeners    int      `json:"listeners"`
+	MaxSteps     int      `json:"max_steps"`
+	MaxAttempts  int      `json:"max_attempts"`
+	ReadMax      int      `json:"read_max"`
+	W            Weights  `json:"w"`
+	Enum         string   `json:"enum,omitempty"`          // description of an enumerated case (C06)
+	IOSameHost   bool     `json:"io_same_host,omitempty"`  // all /io attempts come from one remote address
+	LogPark      bool     `json:"log_park,omitempty"`      // hold callers inside their log calls when the broker's lock turns out to be free there
+	HeldShut     bool     `json:"held_shutdown,omitempty"` // the shutdown may be let go while a lock section is blocked on the stalled terminal
+	LateClose    bool     `json:"late_close,omitempty"`    // the transports of a returned caller are closed later, at a step of their own (close_trans), not at once
+	Burst        bool     `json:"burst,omitempty"`         // several /io requests may start within one step (their set-up code runs concurrently)
+	LazyListener bool     `json:"lazy_listener,omitempty"` // event listener 0 has a channel of one or two slots and is read only at drain_events steps
+	Served       uint64   `json:"served,omitempty"`        // the broker has served this many requests before the run begins (its counters are moved forward)
 }
 
 // Weights are the relative frequencies of the action kinds.
@@ -93,12 +95,13 @@ type half struct {
 	admitted bool     // observed
 	gen      int      // generation it belongs to, if admitted
 
-	admitStep   int
-	releaseStep int
-	released    bool // release granted
-	endedByErr  bool // harness knows the stream ended with a transport error of its own
-	cancelCause bool // a cancellation cause occurred before its proxy ended
-	proxyEnded  bool // seen at release park
+	admitStep    int
+	releaseStep  int
+	released     bool // release granted
+	endedByErr   bool // harness knows the stream ended with a transport error of its own
+	cancelCause  bool // a cancellation cause occurred before its proxy ended
+	proxyEnded   bool // seen at release park
+	endedNoCause bool // the proxy ended although nothing had happened that ends this stream
 
 	// C03/C11 attribution of plain output (output halves)
 	plainLo, plainHi int   // receive indexes [lo,hi) of the plain CLines sent by this half; hi = -1 while open
@@ -297,14 +300,15 @@ type sim struct {
 
 	feeder *feeder
 
-	atts      []*attempt
-	parks     []*park
-	busy      *half // half inside a lock section (top of busyStack)
-	busyStack []*half
-	heldShut  bool        // the shutdown goroutine was let go while a lock section was blocked: it may wait for the broker\'s lock
-	lock      *sync.Mutex // the broker's own lock (log-park runs only)
-	shutPark  *park
-	shutDone  bool
+	atts       []*attempt
+	parks      []*park
+	busy       *half // half inside a lock section (top of busyStack)
+	busyStack  []*half
+	heldShut   bool        // the shutdown goroutine was let go while a lock section was blocked: it may wait for the broker\'s lock
+	evDrainDue bool        // lazy-listener runs: read the listener in this and the following settles of the step
+	lock       *sync.Mutex // the broker's own lock (log-park runs only)
+	shutPark   *park
+	shutDone   bool
 
 	m model
 
@@ -338,22 +342,24 @@ type sim struct {
 
 	mustEnd map[*half]int // halves that must end by themselves: step at which the obligation arose
 
-	script       []Action
-	scriptPos    int
-	replay       bool
-	freeTail     bool
-	leakSeen     bool
-	simNanos     int64
-	tag          map[int64]*attempt // goroutines of the code, by the attempt they serve
-	byAddr       map[string]*attempt
-	baseLog      *slog.Logger
-	draining     bool
-	leakDue      bool
-	tearingDown  bool
-	plainChecked int
-	noticeSeen   int
-	goneOpen     int
-	shutdownStep int
+	script         []Action
+	scriptPos      int
+	replay         bool
+	freeTail       bool
+	leakSeen       bool
+	simNanos       int64
+	tag            map[int64]*attempt // goroutines of the code, by the attempt they serve
+	byAddr         map[string]*attempt
+	baseLog        *slog.Logger
+	draining       bool
+	leakDue        bool
+	tearingDown    bool
+	plainChecked   int
+	noticeSeen     int
+	goneOpen       int
+	shutdownStep   int
+	drainStartStep int // step at which the closing phase began
+	lazyReadStep   int // last step before the shutdown at which the lazy listener was read
 }
 
 func (s *sim) violate(prop, inv, sig, format string, a ...any) {
